@@ -112,6 +112,8 @@ func checkC06(c *Ctx, r *Report) {
 	checkHelperRequests(c, r)
 	// ... of commands whose definitions (operation tables) nothing rewrites at run time (shared with C19, C03)
 	checkPackageTablesReadOnly(c, r)
+	// ... and whose named field values mean on the wire what their names say
+	checkWireEnums(c, r)
 
 	checkOperationTable(c, r)
 	checkBuildLiterals(c, r)
